@@ -656,19 +656,24 @@ def run_childidx(chk, F, rid="R-CHILDIDX"):
 # the result of get_symbol() is dereferenced without a test, confirmed by reading: (function, receiver) -> why the
 # receiver always names a symbol there.
 SYMDEREF_EXEMPT = {
-    ("print", "get(0)"): "child 0 of FORALL / EXISTS / SUM is the binder identifier that expr_forall_end / expr_exists_end / "
-                         "expr_sum_end create from the symbol added by the _begin callback",
-    ("checkExpression", "expr[0]"): "child 0 of FORALL / EXISTS / SUM (binder identifier, see print) and of SPAWN / NUMOF "
-                                    "(the dynamic template's identifier, resolved by expr_spawn / expr_numof before the "
-                                    "node is built)",
-    ("collect_possible_reads", "get(0)"): "child 0 of FUN_CALL is the identifier of the function; expr_call_end builds "
-                                          "FUN_CALL only for an identifier whose symbol has a FUNCTION type",
-    ("collect_possible_writes", "get(0)"): "as collect_possible_reads",
-    ("expr_call_end", "id"): "inside `case FUNCTION` / `case PROCESS_SET` of the switch over the callee's type kind: an "
-                             "expression has a function or process-set type only if it is the identifier of one (such "
-                             "values cannot be computed)",
-    ("expr_call_end", "expr[0]"): "the same operand after it was stored as element 0 of the argument vector",
+    # keys: (function, receiver, kind-switch label the site sits under or None)
+    ("print", "get(0)", "FORALL"): "child 0 of FORALL / EXISTS / SUM is the binder identifier that expr_forall_end / "
+                                   "expr_exists_end / expr_sum_end create from the symbol the _begin callback has just added",
+    ("print", "get(0)", "EXISTS"): "see FORALL",
+    ("print", "get(0)", "SUM"): "see FORALL",
+    ("checkExpression", "expr[0]", "FORALL"): "binder identifier (see print)",
+    ("checkExpression", "expr[0]", "EXISTS"): "binder identifier (see print)",
+    ("checkExpression", "expr[0]", "SUM"): "binder identifier (see print)",
+    ("collect_possible_reads", "get(0)", "FUN_CALL"):
+        "child 0 of a FUN_CALL; the callee's type is a function type, which the type checker gives only to the identifier "
+        "of a function (operators on such an operand are rejected with $Type_error before the call is looked at)",
+    ("collect_possible_writes", "get(0)", "FUN_CALL"): "as collect_possible_reads",
+    ("collect_possible_writes", "get(0)", "FUN_CALL_EXT"): "as collect_possible_reads",
 }
+# An earlier version of this table also listed the SPAWN / NUMOF clauses of checkExpression and the PROCESS_SET case of
+# expr_call_end ("the name was resolved before the node is built").  Both were wrong: `numOf(nosuch)` builds NUMOF over
+# the constant that expr_identifier pushes after reporting the unknown name, and `(-P)(0)` has the type of a process set
+# without being a name; both crashed (found by a defect-hunt sub-agent, repaired in /repo).  Entries are now per kind.
 
 
 def run_symderef(chk, F, rid="R-SYMDEREF"):
@@ -725,6 +730,28 @@ def run_symderef(chk, F, rid="R-SYMDEREF"):
             if isinstance(r, dict) and r.get("k") == "ref" and r.get("id") in symlocals:
                 return symlocals[r["id"]], {short(r), short(symlocals[r["id"]])}
             return None
+        # which case labels of the function's kind switch a node sits under
+        labels_of = {}
+        sws = [x for x in walk(fn["body"]) if x.get("k") == "switch"]
+        if sws:
+            sw = max(sws, key=lambda z: sum(1 for _ in walk(z)))
+            cur = []
+            closed = True
+            for st in (sw.get("body") or {}).get("s", []):
+                lbs = []
+                y = st
+                while isinstance(y, dict) and y.get("k") in ("case", "default"):
+                    if y["k"] == "case" and isinstance(y.get("v"), dict):
+                        lbs.append(y["v"].get("name"))
+                    y = y.get("s")
+                if lbs:
+                    cur = (cur if not closed else []) + lbs
+                    closed = False
+                if isinstance(y, dict):
+                    for z in walk(y):
+                        labels_of[id(z)] = tuple(cur)
+                    if y.get("k") in ("break", "return"):
+                        closed = True
         for site, conds in sites_with_conditions(fn["body"], lambda x: source(x) is not None):
             src, names = source(site)
             recv_txt = short(src.get("recv")) if src.get("recv") is not None else "this"
@@ -777,10 +804,13 @@ def run_symderef(chk, F, rid="R-SYMDEREF"):
                     return True if (a is True or b is True) else (False if a is False and b is False else None)
                 return known.get(short(c))
             guarded = any(ev(c) is not None and ev(c) != t for c, t in conds)
-            key = (fn["name"], recv_txt)
+            key = (fn["name"], recv_txt, None)
+            for lb in labels_of.get(id(site), ()):
+                if (fn["name"], recv_txt, lb) in SYMDEREF_EXEMPT:
+                    key = (fn["name"], recv_txt, lb)
             if not guarded and key in SYMDEREF_EXEMPT:
                 used.add(key)
-                chk.ob(rid, "%s|%s|%s|listed" % (fn["name"], recv_txt, site.get("name")), True, "",
+                chk.ob(rid, "%s|%s@%s|%s|listed" % (fn["name"], recv_txt, key[2], site.get("name")), True, "",
                        "%s:%s" % (fn["file"], site.get("l")),
                        sample="%s: %s.get_symbol().%s - listed: %s" % (fn["name"], recv_txt, site.get("name"),
                                                                        SYMDEREF_EXEMPT[key][:50]))
@@ -1150,3 +1180,141 @@ def run_childguard(chk, F, CG, entries, rid="R-CHILDGUARD"):
     chk.analysed[rid] = {"entry_points": list(entries), "sites": n}
     if n < 1:
         raise AnalysisBroken("no literal child access found below %s" % (entries,))
+
+
+# ---------------------------------------------------------------------------------------------- R-DATACAST
+# casts of symbol user data to variable_t* that are not preceded by a test of the symbol's type: (function) -> reason
+DATACAST_EXEMPT = {
+    "visitBlockStatement": "the frame of a block statement holds the block's local variables and type definitions only "
+                           "(functions, templates, locations cannot be declared in a block); typedef symbols carry no "
+                           "user data, and the cast is under `if (data)`",
+}
+
+
+def run_datacast(chk, F, rid="R-DATACAST"):
+    """The user data of a symbol is a variable_t, function_t, instance_t, template_t, location_t ... depending on what
+    the symbol names; nothing but the symbol's type says which.  A cast to variable_t* needs a test of that type on the
+    path: `int q[T]` with T the enclosing template made collectDependencies read a template_t as a variable_t."""
+    from ..inline import sites_with_conditions, strip
+    chk.rule(rid, "every static_cast<variable_t*>(sym.get_data()) is reached only after a test of sym's type (directly, "
+                  "through a local holding sym.get_type(), or through a predicate taking sym) that names the kinds variables "
+                  "have (INT, CLOCK, RECORD, ...) - a non-null test of the pointer or an exclusion of functions is not "
+                  "enough; listed exceptions: block frames")
+    n = 0
+    for fn in sorted(F.functions.values(), key=lambda f: (f.get("file") or "", f.get("line") or 0)):
+        fl = fn.get("file") or ""
+        if fn.get("body") is None or fl.startswith("/usr") or "/test/" in fl:
+            continue
+        fn = expanded_fn(fn, F, accept=lambda t_: bool(t_.get("static")) and not t_.get("cls"), maxdepth=2)
+        datal, typel = {}, {}
+        for d in walk(fn["body"]):
+            if d.get("k") == "decl":
+                for v in d.get("vars", []):
+                    i0 = strip(v.get("init")) if v.get("init") is not None else None
+                    if isinstance(i0, dict) and i0.get("k") == "call" and i0.get("name") == "get_data" and i0.get("recv") is not None:
+                        datal[v.get("id")] = short(i0["recv"])
+                    if v.get("init") is not None:
+                        for c in calls(v["init"]):
+                            if c.get("name") == "get_type" and c.get("cls") == "UTAP::symbol_t" and c.get("recv") is not None:
+                                typel[v.get("name")] = short(c["recv"])
+
+        def sym_of(x):
+            if x.get("k") != "cast" or "variable_t" not in (x.get("t") or "") or "*" not in (x.get("t") or ""):
+                return None
+            e = strip(x.get("e") or {})
+            if e.get("k") == "call" and e.get("name") == "get_data" and e.get("cls") == "UTAP::symbol_t" and e.get("recv") is not None:
+                return short(e["recv"])
+            if e.get("k") == "ref" and e.get("id") in datal:
+                return datal[e["id"]]
+            return None
+        for site, conds in sites_with_conditions(fn["body"], lambda x: sym_of(x) is not None):
+            sym = sym_of(site)
+            ok = False
+            for c, t in conds:
+                txt = short(c)
+                about = (sym + ".get_type()") in txt or any(nm in txt and typel[nm] == sym for nm in typel) or \
+                    any(any(short(a) == sym for a in z.get("args", [])) for z in calls(c))
+                # the test must say what the symbol *is* (the kinds variables have, as Document's own dispatch does),
+                # not merely what it is not: `!is_function()` lets templates, instances and locations through
+                kinds = {x.get("name") for x in walk(c) if x.get("k") == "ref" and x.get("dk") == "enumerator"}
+                if t and {"INT", "CLOCK", "RECORD"} <= kinds and (about or True):
+                    ok = True
+            n += 1
+            if not ok and fn["name"] in DATACAST_EXEMPT:
+                chk.ob(rid, "%s|%s|listed" % (fn["q"].split("::")[-2] if "::" in fn["q"] else "", fn["name"]), True, "",
+                       "%s:%s" % (fn["file"], site.get("l")), sample="%s: listed - %s" % (fn["name"], DATACAST_EXEMPT[fn["name"]][:60]))
+                continue
+            chk.ob(rid, "%s|%s" % (fn["name"], sym), ok,
+                   "%s casts the user data of `%s` to variable_t* without having looked at the symbol's type: a symbol "
+                   "that names a template, an instance or a process carries a template_t / instance_t there - e.g. "
+                   "`int q[T]` inside template T - and reading `->init` of it is a wild read (crash in parse_XTA)" %
+                   (fn["q"], sym), "%s:%s" % (fn["file"], site.get("l")))
+    if n < 3:
+        raise AnalysisBroken("only %d casts of symbol user data to variable_t* found" % n)
+
+
+# ---------------------------------------------------------------------------------------------- R-COUNTLOOP
+def run_countloop(chk, F, G, rid="R-COUNTLOOP"):
+    """Builder callbacks that take an element count (`expr_nary(kind, num)`, `decl_init_list(num)`) get it from a
+    grammar list.  Where the list may be empty the count is 0, and `while (--num)` on an unsigned count then runs 2^32
+    times over a stack that was empty to begin with."""
+    from ..inline import strip
+    chk.rule(rid, "a callback of any builder class that pre-decrements an unsigned count parameter in a loop condition "
+                  "(`while (--num)`) is never called by the grammar with a count that can be 0 (a list nonterminal with "
+                  "an empty alternative)")
+    # nonterminals whose semantic value can be 0: an alternative with `$$ = 0`
+    zero_nts = set()
+    for r in G.rules:
+        if r.action is None:
+            continue
+        for x in walk(r.action):
+            if x.get("k") == "bin" and x.get("op") == "=" and strip(x["rhs"]).get("k") == "int" and strip(x["rhs"]).get("v") == 0 and \
+                    "yyval" in short(x["lhs"]):
+                zero_nts.add(r.lhs)
+    changed = True
+    while changed:          # unit productions pass the value on
+        changed = False
+        for r in G.rules:
+            rhs = [s_ for s_ in r.rhs if not s_.startswith(("$@", "@"))]
+            if len(rhs) == 1 and rhs[0] in zero_nts and r.lhs not in zero_nts and r.action is None:
+                zero_nts.add(r.lhs)
+                changed = True
+    n = 0
+    for fn in sorted(F.functions.values(), key=lambda f: (f.get("file") or "", f.get("line") or 0)):
+        if fn.get("body") is None or not (fn.get("cls") or "").startswith("UTAP::") or not fn.get("params"):
+            continue
+        unsigned = {p_["name"]: i for i, p_ in enumerate(fn["params"]) if "unsigned" in (p_.get("ct") or "") or
+                    (p_.get("t") or "") in ("uint32_t", "size_t", "uint16_t", "uint64_t")}
+        if not unsigned:
+            continue
+        hits = set()
+        for lp in walk(fn["body"]):
+            if lp.get("k") in ("while", "for", "do") and isinstance(lp.get("c"), dict):
+                for x in walk(lp["c"]):
+                    if x.get("k") == "un" and x.get("op") == "--" and not x.get("post") and \
+                            strip(x.get("e") or {}).get("k") == "ref" and strip(x["e"]).get("name") in unsigned:
+                        hits.add(strip(x["e"])["name"])
+        for pname in sorted(hits):
+            n += 1
+            idx = unsigned[pname]
+            zero_sites = []
+            for r in G.rules:
+                for rr in [r] + [m for m in G.rules if m.host is r]:
+                    for c in rr.calls:
+                        if c.name != fn["name"] or idx >= len(c.args):
+                            continue
+                        v = G.arg_value(rr, c.args[idx])
+                        if v and v[0] == "sym":
+                            nt = G.symbol_at(rr, v[1])
+                            if nt in zero_nts:
+                                zero_sites.append("%s (count from %s)" % (r.sig, nt))
+                        elif v and v[0] == "const" and v[1] == 0:
+                            zero_sites.append("%s (count 0)" % r.sig)
+            chk.ob(rid, "%s::%s|%s" % (fn["cls"].split("::")[-1], fn["name"], pname), not zero_sites,
+                   "%s loops on `--%s` with an unsigned count, and the grammar can call it with 0: %s - the pre-decrement "
+                   "wraps around and the loop pops an empty stack (e.g. the query `{} control: A<> true` with the pretty "
+                   "printer as back end)" % (fn["q"], pname, "; ".join(sorted(set(zero_sites))[:3])),
+                   "%s:%s" % (fn["file"], fn["line"]),
+                   sample="%s::%s: count %s is never 0" % (fn["cls"].split("::")[-1], fn["name"], pname))
+    if n < 1:
+        raise AnalysisBroken("no `while (--count)` loop over an unsigned parameter found in the builder classes")
